@@ -22,6 +22,18 @@ var c10Strings = []string{
 	"foo-bar", "Hello World", "aGVsbG8=", "not base64!", "1.5", "1e3", "Inf", "NaN", "10Gi", "500m",
 	"{\"a\":1}", "[1,\"x\"]", "{bad", "prefix-middle-suffix", "eu-west-1", "ÄÖü", "a_b", "12_3", " 5",
 	"us-east-1a", "x",
+	// numbers as authors write them: leading zeros, signs, base prefixes, digit separators,
+	// exponents, surrounding whitespace
+	"010", "0644", "0x1F", "0X1f", "0b101", "0o17", "1_000", "-0x10", "+0", "-0", "00", " 42", "42 ", "42\n", "1e3", "1E-2", ".5", "5.", "0x1p-2",
+	"1_000.5", "+Inf", "infinity", "nan", "True", "F", "0.0", "-010", "9_223_372_036_854_775_807",
+}
+
+// numbers as composition authors and users write them
+var c10NumStrings = []string{
+	"0", "7", "-5", "+7", "007", "010", "0644", "-010", "00", "+0", "-0", "0x1F", "0X1f", "-0x10", "0b101", "0o17", "1_000", "12_3",
+	"9_223_372_036_854_775_807", "9223372036854775807", "9223372036854775808", "-9223372036854775808", " 42", "42 ", "42\n", "\t42",
+	"1e3", "1E-2", "1.5", ".5", "5.", "-2.50", "0.0", "0x1p-2", "1_000.5", "Inf", "+Inf", "-inf", "infinity", "NaN", "nan",
+	"true", "false", "True", "TRUE", "t", "F", "1", "yes", "",
 }
 
 var c10Ints = []int64{0, 1, -1, 2, 3, 7, 10, 42, -42, 1000, 1 << 31, 1 << 53, (1 << 53) + 1, 9223372036854775807, -9223372036854775808, 4611686018427387904, -4611686018427387905, 3037000500}
@@ -786,6 +798,22 @@ func c10GenResolveScn(r *Rng) *c10Scn {
 		}
 		return &c10Scn{Kind: "resolve", Input: c10Enc(in), Xfs: []c10Xf{
 			{Type: "convert", Convert: &c10Convert{ToType: a}}, {Type: "convert", Convert: &c10Convert{ToType: b}}}}
+	}
+	if r.Chance(1, 8) {
+		// numbers as text (and numbers, booleans) through the default conversions
+		in = Pick(r, c10NumStrings)
+		if r.Chance(1, 4) {
+			in = Pick(r, []any{Pick(r, c10Ints), Pick(r, c10Floats), r.Bool()})
+		}
+		c := &c10Convert{ToType: Pick(r, []string{"int64", "int64", "int", "float64", "bool", "string"})}
+		if r.Chance(1, 4) {
+			c.Format = c10P("none")
+		}
+		xfs := []c10Xf{{Type: "convert", Convert: c}}
+		if r.Chance(1, 4) {
+			xfs = append(xfs, c10Xf{Type: "convert", Convert: &c10Convert{ToType: "string"}})
+		}
+		return &c10Scn{Kind: "resolve", Input: c10Enc(in), Xfs: xfs}
 	}
 	xfs := c10GenChain(r, in, 3)
 	if len(xfs) == 0 {
